@@ -365,6 +365,9 @@ def genV3 : G (List String) := do
   let chain : Chain := ⟨ts, a2b, b2b⟩
   let (encName, enc) ← pick [("default", Keys.Enc.default), ("v2", Keys.Enc.v2)]
   let sep ← pick ['/', '.']
+  -- the separator may be left out of the metadata: then it is the default of the encoding (`/` for default, `.` for v2)
+  let ckeForm ← pick [0, 0, 1, 2]
+  let sep := if ckeForm == 0 then sep else (if encName == "v2" then '.' else '/')
   let path ← pick ["/", "/a", "/g/arr"]
   let a : V3 := if cplx then ⟨shape ++ [2], chunk ++ [2], 4, fill, enc, sep, expandChain rank chain, path.toList⟩
     else ⟨shape, chunk, dt.es, fill, enc, sep, chain, path.toList⟩
@@ -377,7 +380,8 @@ def genV3 : G (List String) := do
           (if atEnd then "end" else "start") ++ "\"}}"] ++ b2bJson b2b
   let metaText := "{\"zarr_format\":3,\"node_type\":\"array\",\"shape\":" ++ jNats shape ++ ",\"data_type\":\"" ++ dt.name ++
     "\",\"chunk_grid\":{\"name\":\"regular\",\"configuration\":{\"chunk_shape\":" ++ jNats chunk ++ "}},\"chunk_key_encoding\":{\"name\":\"" ++
-    encName ++ "\",\"configuration\":{\"separator\":\"" ++ String.singleton sep ++ "\"}},\"fill_value\":" ++ fillJ ++ ",\"codecs\":[" ++
+    encName ++ (if ckeForm == 0 then "\",\"configuration\":{\"separator\":\"" ++ String.singleton sep ++ "\"}}" else if ckeForm == 1 then "\"}" else "\",\"configuration\":{}}") ++
+    ",\"fill_value\":" ++ fillJ ++ ",\"codecs\":[" ++
     ",".intercalate codecsJ ++ "]}"
   let data ← genData dt.es (prod a.shape) fill
   let data ← blankChunks a.shape a.chunk fill data
